@@ -45,7 +45,13 @@ Definition adaptors_ok : bool :=
   if list_eq_dec strpair_eq_dec adaptor_bodies
        [("isEqual", "return equal_(object1, object2) != 0;"); ("valueToString", "return SimpleString(toString_(object));"); ("copy", "copier_(dst, src);")]
   then true else false.
-Definition wiring_ok : bool := table_ok TblS && table_ok TblE && table_ok TblA && select_ok && adaptors_ok.
+(* the C++ side of "...OrDefault" (regenerated from MockSupport.cpp / MockActualCall.cpp): hasReturnValue() ? <getter>() : default,
+   with the getter that norm_ret and denote assume *)
+Definition class_of (r : recv) : name := match r with RSup => "MockSupport" | _ => "MockCheckedActualCall" end.
+Definition cpp_defaults_ok : bool :=
+  forallb (fun r => forallb (fun t => existsb (fun e => (fst (fst e) =? class_of r) && (snd (fst e) =? or_default_name t) && (snd e =? getter_name r t))
+                                              cpp_or_default) type_names) [RSup; RAct].
+Definition wiring_ok : bool := table_ok TblS && table_ok TblE && table_ok TblA && select_ok && adaptors_ok && cpp_defaults_ok.
 
 Lemma wiring_checked : wiring_ok = true.
 Proof. vm_compute. reflexivity. Qed.
@@ -69,7 +75,7 @@ Qed.
 
 Lemma table_ok_all t : table_ok t = true.
 Proof.
-  pose proof wiring_checked as H. unfold wiring_ok in H. rewrite !andb_true_iff in H. destruct H as [[[[HS HE] HA] _] _].
+  pose proof wiring_checked as H. unfold wiring_ok in H. rewrite !andb_true_iff in H. destruct H as [[[[[HS HE] HA] _] _] _].
   destruct t; assumption.
 Qed.
 
@@ -122,6 +128,17 @@ Qed.
 
 Lemma select_checked : select_ok = true.
 Proof. pose proof wiring_checked as H. unfold wiring_ok in H. rewrite !andb_true_iff in H. tauto. Qed.
+
+Lemma cpp_or_default_is : forall r t, r <> RExp -> In t type_names ->
+  In (class_of r, or_default_name t, getter_name r t) cpp_or_default.
+Proof.
+  intros r t Hr Ht. pose proof wiring_checked as H. unfold wiring_ok in H. rewrite !andb_true_iff in H. destruct H as [_ H].
+  unfold cpp_defaults_ok in H. rewrite forallb_forall in H.
+  assert (In r [RSup; RAct]) as Hin by (destruct r; simpl; auto; contradiction).
+  specialize (H r Hin). rewrite forallb_forall in H. specialize (H t Ht). apply existsb_exists in H.
+  destruct H as [[[c m] g] [He Hk]]. cbn [fst snd] in Hk. rewrite !andb_true_iff in Hk. destruct Hk as [[K1 K2] K3].
+  apply name_eqb_eq in K1, K2, K3. subst. exact He.
+Qed.
 
 (* ---------------------------------------------------------------- C19_equiv: same C++ operations *)
 Lemma trace_ext l1 l2 b p k ops : (forall t f, l1 t f = l2 t f) -> trace_from l1 b p k ops = trace_from l2 b p k ops.
